@@ -162,7 +162,12 @@ def _store(rng, what, **f):
         ids.sort()
     if f.get('dup_ids'):
         ids = ids + [rng.choice(ids)] if ids else ids
-    inp = {'what': what, 'n_templates': nt, 'n_channels': nc, 'spike_templates': st, 'npcs': npcs, 'ncl': ncl,
+    # curated dataset: cluster ids that differ from the template ids (features follow the templates)
+    sc = None
+    if f.get('curated', rng.random() < 0.5):
+        sc = [(t + 1) % nt if rng.random() < 0.7 else rng.randint(0, nt + 1) for t in st]
+    inp = {'what': what, 'n_templates': nt, 'n_channels': nc, 'spike_templates': st, 'spike_clusters': sc,
+           'npcs': npcs, 'ncl': ncl,
            'data': data, 'ind': ind, 'rows': rows, 'ids': ids,
            'ids_dtype': rng.choice(['int64', 'int64', 'int32', 'uint32', 'list']),
            'rows_dtype': rng.choice(['int64', 'int32', 'uint32']), 'ind_dtype': rng.choice(['uint32', 'int32', 'int64']),
@@ -229,6 +234,14 @@ def _corpus(rng):
     cases.append(_fs(_cells(1, 2, ()), [[0, 1]], [1, 1], [1], 2))       # duplicate request rejected
     cases.append(_fs(_cells(1, 2, ()), [[-1, 3]], [3, 0], [0, 3], 2))   # -1 padding entry in the column table
     cases.append(_fs(_cells(1, 3, ()), [[4, 4, 1]], [4, 1], [1, 4], 3))  # a channel twice in a row (undetermined)
+    # the inputs on which get_template_features failed before fix-c06 (rows sorted by spike id instead of
+    # request order; AssertionError for a request naming a spike outside the row table)
+    tf = {'what': 'tfeatures', 'n_templates': 3, 'n_channels': 3, 'spike_templates': [2, 2, 1], 'spike_clusters': None,
+          'npcs': 2, 'ncl': 3, 'data': [[101, 102, 103], [201, 202, 203]], 'ind': None, 'rows': [2, 1], 'ids': [2, 1],
+          'ids_dtype': 'int64', 'rows_dtype': 'int64', 'ind_dtype': 'uint32', 'id_dtype': 'uint32', 'fdtype': 'float32'}
+    cases.append({'kind': 'tfeatures', 'inp': tf})
+    cases.append({'kind': 'tfeatures', 'inp': dict(tf, rows=[0, 2], ids=[0, 1, 2], ind=[[0, 1, 2], [2, 0, 1], [1, 2, 0]])})
+    cases.append({'kind': 'tfeatures', 'inp': dict(tf, rows=[0, 2], ids=[1])})
     # model level: the configurations behind the repaired get_template_features defect
     for what in ('tfeatures', 'features'):
         for f in (dict(subset=True, req='stored'), dict(subset=True, req='any'), dict(subset=False, req='all'),
@@ -252,7 +265,7 @@ def generate(tier, rng):
         return cases
     quick = tier == 'quick'
     cases += _fs_exhaustive(tier)
-    n_fs, n_big, n_store, n_proj, n_walsh, n_pca = (600, 60, 220, 100, 40, 40) if quick else (8000, 1500, 3000, 1000, 400, 300)
+    n_fs, n_big, n_store, n_proj, n_walsh, n_pca = (600, 60, 220, 100, 40, 40) if quick else (6000, 1500, 2500, 1000, 400, 300)
     for _ in range(n_fs):
         cases.append(_fs_random(rng))
     for _ in range(n_big):
@@ -490,6 +503,7 @@ def dist(case, obs):
                                       ('' if set(i['ids']) <= held else '+unstored') +
                                       ('+dup' if len(set(i['ids'])) < len(i['ids']) else '')))
         out.append('%s.ids_dtype=%s' % (k, i['ids_dtype']))
+        out.append('%s.curated=%s' % (k, i.get('spike_clusters') is not None))
         out.append('%s.outcome=%s' % (k, obs[1][0]))
         if k == 'features':
             nc = i['n_channels']
